@@ -53,7 +53,7 @@ def rand_tower(rng):
     return [rand_floor(rng) for _ in range(rng.randrange(0, 7))]
 
 
-def run(ctx):
+def _run(ctx):
     from dpapi_ng import _rpc as r, _epm as e
     from dpapi_ng._rpc import _verification as v, _pdu
     prelude.validate(ctx)
@@ -195,6 +195,17 @@ def run(ctx):
             ctx.violation("decoder does not terminate within work proportional to the input length", {"decoder": opn, "data": hx(b)[:400], "len": len(b)}, out, "terminates")
     for i in range(0, len(cases), 4000):
         ctx.compare_batch(cases[i:i + 4000], nontrivial=lambda line, impl: impl.startswith("ok"))
+
+
+def run(ctx):
+    import contextlib, gen
+    from dpapi_ng._rpc import _bind, _pdu
+    with contextlib.ExitStack() as st:
+        recs = [st.enter_context(gen.PurityRecorder(cls, ["unpack"], limit=250)) for cls in (_bind.SyntaxId, _bind.ContextElement, _bind.ContextResult, _pdu.SecTrailer,
+                                                                                         _pdu.PDUHeader, _pdu.DataRep)]
+        _run(ctx)
+    for rec in recs:
+        rec.verify(ctx, "RPC structure decoder " + rec.module.__name__)
 
 
 def search(ctx, broken, disagreements):
